@@ -40,12 +40,285 @@ theorem readData_fits (mode : Mode) (st : St) (av data : Bytes) (datalen : Nat) 
       | some rx => simp only [List.length_append, List.length_take] at *; omega
     · exact ⟨by simp only [List.length_drop]; omega, fun pl hp => by cases hp⟩
 
-/- NOT PROVED (time): the same for the whole of `coap_ws_read`'s frame phase,
+/-! ### `coap_ws_read` with an arbitrary caller buffer: normal form, case rules, `readFrame_fits`, `readFrame_ok` -/
 
-    theorem readFrame_fits (mode) (datalen) : ∀ fuel st av, ReadFits datalen av (readFrame mode datalen fuel st av)
+def keyOf (st : St) (b1 : UInt8) (r' : Bytes) : Bytes :=
+  if b1.toNat / 128 = 1 then (r'.drop (hExt b1.toNat)).take 4 else st.maskKey
+/-- the reader state once a binary frame's header is complete (`all_hdr_in = 1`, mask key and `data_size` decoded) -/
+def hdrSt (st : St) (b1 : UInt8) (r' : Bytes) : St :=
+  { st with allHdrIn := true, maskKey := keyOf st b1 r', dataSize := hSize b1.toNat r' }
+def unmaskIf (mode : Mode) (key data : Bytes) : Bytes := if mode = .server then xorKey key 0 data else data
 
-  (the header branches return `size` or `ret = size` bytes with `size ≤ datalen` checked just before; induction over
-  the `goto next_frame` fuel).  For datalen = 1472 and states of the invariant it follows from `readFrame_spec`. -/
+/-- `readFrame` (any caller buffer size `datalen`) once the two fixed header bytes are in `rd_header`;
+`st` already has `rdHeader := b0 :: b1 :: r'` -/
+def afterHdrD (mode : Mode) (datalen fuel : Nat) (st : St) (b0 b1 : UInt8) (r' : Bytes) (av : Bytes) : Ret × St × Bytes :=
+  if mode = .server ∧ ¬ b1.toNat / 128 = 1 then (.closed, st, av) else
+  if r'.length < hExtra b1.toNat then (.zero, st, av) else
+  if b0.toNat % 16 ≠ 2 then (.closed, st, av) else
+  if hSize b1.toNat r' > datalen then (.closed, hdrSt st b1 r', av) else
+  if hSize b1.toNat r' = 0 then
+    if (r'.drop (hExtra b1.toNat)).length > 0 then
+      readFrame mode datalen fuel { hdrSt st b1 r' with rdHeader := r'.drop (hExtra b1.toNat), allHdrIn := false } av
+    else (.zero, { hdrSt st b1 r' with rdHeader := r'.drop (hExtra b1.toNat), allHdrIn := false }, av)
+  else if (r'.drop (hExtra b1.toNat)).length > 0 then
+    if (r'.drop (hExtra b1.toNat)).length ≤ hSize b1.toNat r' then
+      if (r'.drop (hExtra b1.toNat)).length = hSize b1.toNat r' then
+        (.pkt (unmaskIf mode (keyOf st b1 r') (r'.drop (hExtra b1.toNat))),
+          { hdrSt st b1 r' with dataOfs := (r'.drop (hExtra b1.toNat)).length, allHdrIn := false, rdHeader := [] }, av)
+      else readData mode { hdrSt st b1 r' with dataOfs := (r'.drop (hExtra b1.toNat)).length } av (r'.drop (hExtra b1.toNat)) datalen
+    else
+      (.pkt (unmaskIf mode (keyOf st b1 r') ((r'.drop (hExtra b1.toNat)).take (hSize b1.toNat r'))),
+        { hdrSt st b1 r' with dataOfs := hSize b1.toNat r', allHdrIn := false,
+                              rdHeader := (r'.drop (hExtra b1.toNat)).drop (hSize b1.toNat r') }, av)
+  else readData mode { hdrSt st b1 r' with dataOfs := 0 } av [] datalen
+
+theorem readFrame_hdrD (mode : Mode) (datalen fuel : Nat) (st : St) (av : Bytes) (b0 b1 : UInt8) (r' : Bytes)
+    (hall : st.allHdrIn = false)
+    (hh : st.rdHeader ++ av.take (fsCap - st.rdHeader.length) = b0 :: b1 :: r') :
+    readFrame mode datalen (fuel + 1) st av =
+      afterHdrD mode datalen fuel { st with rdHeader := b0 :: b1 :: r' } b0 b1 r' (av.drop (fsCap - st.rdHeader.length)) := by
+  obtain ⟨up, H, seen, p, all, key, ofs, size, rx⟩ := st
+  simp only at hall hh
+  subst hall
+  have e1 : (if b1.toNat % 128 = 127 then 8 else if b1.toNat % 128 = 126 then 2 else 0) = hExt b1.toNat := rfl
+  have e2 : hExt b1.toNat + (if b1.toNat / 128 = 1 then 4 else 0) = hExtra b1.toNat := rfl
+  have e3 : List.length r' + 1 + 1 - 2 - hExtra b1.toNat = (r'.drop (hExtra b1.toNat)).length := by
+    rw [List.length_drop]; omega
+  have hle := hExtra_le b1.toNat
+  have e4 : ¬ (2 + hExtra b1.toNat > fsCap) := by simp only [fsCap]; omega
+  have e5 : ¬ (List.length r' + 1 + 1 < 2) := by omega
+  have e6 : (List.length r' + 1 + 1 < 2 + hExtra b1.toNat) = (r'.length < hExtra b1.toNat) := by
+    apply propext; constructor <;> intro h <;> omega
+  simp only [readFrame, hh, Bool.false_eq_true, if_false, List.length_cons, rd_cons_zero, rd_cons_succ, size_eq, e1, e2,
+    e3, e4, e5, e6, drop2, Nat.add_assoc]
+  simp only [afterHdrD, hdrSt, keyOf, unmaskIf, List.drop_drop]
+  by_cases hop : b0.toNat % 16 = 2
+  · simp [hop]
+  · by_cases h8 : b0.toNat % 16 = 8
+    · simp [h8]
+    · simp [hop, h8]
+
+theorem readFrame_shortD (mode : Mode) (datalen fuel : Nat) (st : St) (av : Bytes) (hall : st.allHdrIn = false)
+    (hh : (st.rdHeader ++ av.take (fsCap - st.rdHeader.length)).length < 2) :
+    readFrame mode datalen (fuel + 1) st av =
+      (.zero, { st with rdHeader := st.rdHeader ++ av.take (fsCap - st.rdHeader.length) },
+        av.drop (fsCap - st.rdHeader.length)) := by
+  simp only [readFrame, hall, Bool.false_eq_true, if_false, hh, if_true]
+
+theorem readFrame_dataD (mode : Mode) (datalen fuel : Nat) (st : St) (av : Bytes) (hall : st.allHdrIn = true) :
+    readFrame mode datalen (fuel + 1) st av = readData mode st av [] datalen := by
+  simp only [readFrame, hall, if_true]
+
+/-- the three ways a `coap_ws_read` call starts, as a case rule -/
+theorem readFrame_cases (mode : Mode) (datalen fuel : Nat) (st : St) (av : Bytes)
+    (P : Ret × St × Bytes → Prop)
+    (hdata : st.allHdrIn = true → P (readData mode st av [] datalen))
+    (hshort : st.allHdrIn = false → (st.rdHeader ++ av.take (fsCap - st.rdHeader.length)).length < 2 →
+      P (.zero, { st with rdHeader := st.rdHeader ++ av.take (fsCap - st.rdHeader.length) }, av.drop (fsCap - st.rdHeader.length)))
+    (hhdr : ∀ b0 b1 r', st.allHdrIn = false → st.rdHeader ++ av.take (fsCap - st.rdHeader.length) = b0 :: b1 :: r' →
+      P (afterHdrD mode datalen fuel { st with rdHeader := b0 :: b1 :: r' } b0 b1 r' (av.drop (fsCap - st.rdHeader.length)))) :
+    P (readFrame mode datalen (fuel + 1) st av) := by
+  cases hall : st.allHdrIn with
+  | true => rw [readFrame_dataD _ _ _ _ _ hall]; exact hdata hall
+  | false =>
+    match hh : st.rdHeader ++ av.take (fsCap - st.rdHeader.length) with
+    | [] => rw [readFrame_shortD _ _ _ _ _ hall (by rw [hh]; simp)]; rw [hh] at hshort ⊢; exact hshort hall (by simp)
+    | [b] => rw [readFrame_shortD _ _ _ _ _ hall (by rw [hh]; simp)]; rw [hh] at hshort ⊢; exact hshort hall (by simp)
+    | b0 :: b1 :: r' => rw [readFrame_hdrD _ _ _ _ _ b0 b1 r' hall hh]; exact hhdr b0 b1 r' hall hh
+
+
+/-- the exits of `coap_ws_read` once the two fixed header bytes are in, as a case rule -/
+theorem afterHdrD_cases (mode : Mode) (datalen fuel : Nat) (st : St) (b0 b1 : UInt8) (r' av : Bytes)
+    (P : Ret × St × Bytes → Prop)
+    (h1002 : mode = .server → ¬ b1.toNat / 128 = 1 → P (.closed, st, av))
+    (hinc : r'.length < hExtra b1.toNat → P (.zero, st, av))
+    (hop : hExtra b1.toNat ≤ r'.length → b0.toNat % 16 ≠ 2 → P (.closed, st, av))
+    (hbig : hExtra b1.toNat ≤ r'.length → b0.toNat % 16 = 2 → hSize b1.toNat r' > datalen → P (.closed, hdrSt st b1 r', av))
+    (hnext : hExtra b1.toNat < r'.length → b0.toNat % 16 = 2 → hSize b1.toNat r' = 0 →
+      P (readFrame mode datalen fuel { hdrSt st b1 r' with rdHeader := r'.drop (hExtra b1.toNat), allHdrIn := false } av))
+    (hempty : hExtra b1.toNat = r'.length → b0.toNat % 16 = 2 → hSize b1.toNat r' = 0 →
+      P (.zero, { hdrSt st b1 r' with rdHeader := r'.drop (hExtra b1.toNat), allHdrIn := false }, av))
+    (hall : hExtra b1.toNat < r'.length → b0.toNat % 16 = 2 → hSize b1.toNat r' ≤ datalen →
+      (r'.drop (hExtra b1.toNat)).length = hSize b1.toNat r' →
+      P (.pkt (unmaskIf mode (keyOf st b1 r') (r'.drop (hExtra b1.toNat))),
+          { hdrSt st b1 r' with dataOfs := (r'.drop (hExtra b1.toNat)).length, allHdrIn := false, rdHeader := [] }, av))
+    (hpart : hExtra b1.toNat < r'.length → b0.toNat % 16 = 2 → hSize b1.toNat r' ≤ datalen →
+      (r'.drop (hExtra b1.toNat)).length < hSize b1.toNat r' →
+      P (readData mode { hdrSt st b1 r' with dataOfs := (r'.drop (hExtra b1.toNat)).length } av (r'.drop (hExtra b1.toNat)) datalen))
+    (hmore : hExtra b1.toNat < r'.length → b0.toNat % 16 = 2 → hSize b1.toNat r' ≤ datalen → hSize b1.toNat r' ≠ 0 →
+      hSize b1.toNat r' < (r'.drop (hExtra b1.toNat)).length →
+      P (.pkt (unmaskIf mode (keyOf st b1 r') ((r'.drop (hExtra b1.toNat)).take (hSize b1.toNat r'))),
+        { hdrSt st b1 r' with dataOfs := hSize b1.toNat r', allHdrIn := false,
+                              rdHeader := (r'.drop (hExtra b1.toNat)).drop (hSize b1.toNat r') }, av))
+    (hnone : hExtra b1.toNat = r'.length → b0.toNat % 16 = 2 → hSize b1.toNat r' ≤ datalen → hSize b1.toNat r' ≠ 0 →
+      P (readData mode { hdrSt st b1 r' with dataOfs := 0 } av [] datalen)) :
+    P (afterHdrD mode datalen fuel st b0 b1 r' av) := by
+  unfold afterHdrD
+  by_cases c1 : mode = .server ∧ ¬ b1.toNat / 128 = 1
+  · rw [if_pos c1]; exact h1002 c1.1 c1.2
+  rw [if_neg c1]
+  by_cases c2 : r'.length < hExtra b1.toNat
+  · rw [if_pos c2]; exact hinc c2
+  rw [if_neg c2]
+  by_cases c3 : b0.toNat % 16 ≠ 2
+  · rw [if_pos c3]; exact hop (by omega) c3
+  rw [if_neg c3]
+  have c3' : b0.toNat % 16 = 2 := by omega
+  by_cases c4 : hSize b1.toNat r' > datalen
+  · rw [if_pos c4]; exact hbig (by omega) c3' c4
+  rw [if_neg c4]
+  have hlen : (r'.drop (hExtra b1.toNat)).length = r'.length - hExtra b1.toNat := List.length_drop
+  by_cases c5 : hSize b1.toNat r' = 0
+  · rw [if_pos c5]
+    by_cases c6 : (r'.drop (hExtra b1.toNat)).length > 0
+    · rw [if_pos c6]; exact hnext (by omega) c3' c5
+    · rw [if_neg c6]; exact hempty (by omega) c3' c5
+  rw [if_neg c5]
+  by_cases c6 : (r'.drop (hExtra b1.toNat)).length > 0
+  · rw [if_pos c6]
+    by_cases c7 : (r'.drop (hExtra b1.toNat)).length ≤ hSize b1.toNat r'
+    · rw [if_pos c7]
+      by_cases c8 : (r'.drop (hExtra b1.toNat)).length = hSize b1.toNat r'
+      · rw [if_pos c8]; exact hall (by omega) c3' (by omega) c8
+      · rw [if_neg c8]; exact hpart (by omega) c3' (by omega) (by omega)
+    · rw [if_neg c7]; exact hmore (by omega) c3' (by omega) c5 (by omega)
+  · rw [if_neg c6]; exact hnone (by omega) c3' (by omega) c5
+
+theorem ReadFits_trans {datalen : Nat} {av av1 : Bytes} {r : Ret × St × Bytes} (h : ReadFits datalen av1 r)
+    (hl : av1.length ≤ av.length) : ReadFits datalen av r := ⟨Nat.le_trans h.1 hl, h.2⟩
+
+theorem ReadFits_nopkt {datalen : Nat} {av : Bytes} {ret : Ret} {st : St} (h : ∀ pl, ret ≠ .pkt pl) :
+    ReadFits datalen av (ret, st, av) := ⟨Nat.le_refl _, fun pl hp => (h pl hp).elim⟩
+
+theorem unmaskIf_length (mode : Mode) (key bs : Bytes) : (unmaskIf mode key bs).length = bs.length :=
+  maskIf_length _ key bs
+
+/-- `coap_ws_read`'s frame phase, ANY reader state, ANY caller buffer size: bytes are only consumed from the front of
+what is available and a payload handed back has at most `datalen` bytes -/
+theorem readFrame_fits (mode : Mode) (datalen : Nat) : ∀ (fuel : Nat) (st : St) (av : Bytes),
+    ReadFits datalen av (readFrame mode datalen fuel st av) := by
+  intro fuel
+  induction fuel with
+  | zero => intro st av; exact ReadFits_nopkt (by intro pl h; cases h)
+  | succ f ih =>
+    intro st av
+    have hdrop : (av.drop (fsCap - st.rdHeader.length)).length ≤ av.length := by
+      simp only [List.length_drop]; omega
+    apply readFrame_cases
+    · intro _; exact readData_fits mode st av [] datalen
+    · intro _ _; exact ⟨hdrop, fun pl hp => by cases hp⟩
+    · intro b0 b1 r' _ _
+      refine ReadFits_trans ?_ hdrop
+      apply afterHdrD_cases
+      · intro _ _; exact ReadFits_nopkt (by intro pl h; cases h)
+      · intro _; exact ReadFits_nopkt (by intro pl h; cases h)
+      · intro _ _; exact ReadFits_nopkt (by intro pl h; cases h)
+      · intro _ _ _; exact ReadFits_nopkt (by intro pl h; cases h)
+      · intro _ _ _; exact ih _ _
+      · intro _ _ _; exact ReadFits_nopkt (by intro pl h; cases h)
+      · intro _ _ hs hl
+        refine ⟨Nat.le_refl _, fun pl hp => ?_⟩
+        simp only [Ret.pkt.injEq] at hp
+        subst hp
+        rw [unmaskIf_length]; omega
+      · intro _ _ _ _; exact readData_fits mode _ _ _ datalen
+      · intro _ _ hs _ hl
+        refine ⟨Nat.le_refl _, fun pl hp => ?_⟩
+        simp only [Ret.pkt.injEq] at hp
+        subst hp
+        rw [unmaskIf_length, List.length_take]; omega
+      · intro _ _ _ _; exact readData_fits mode _ _ _ datalen
+
+/-- what keeps `coap_ws_read` inside its buffers, for a caller buffer of `datalen` bytes: `hdr_ofs ≤ sizeof(rd_header)`
+(so `sizeof(rd_header) - hdr_ofs` does not wrap) and, while a frame that fits the caller's buffer is in progress,
+`data_ofs ≤ data_size` (so the destination `&data[data_ofs]`, length `data_size - data_ofs`, lies inside the buffer and
+the unsigned difference does not wrap).  A frame refused with 1009 leaves `all_hdr_in` set with `data_size > datalen` and a
+stale `data_ofs`: nothing is demanded of it, the data part returns -1 before it uses either. -/
+def RdOk (datalen : Nat) (st : St) : Prop :=
+  st.rdHeader.length ≤ fsCap ∧ (st.allHdrIn = true → st.dataSize ≤ datalen → st.dataOfs ≤ st.dataSize)
+
+/-- a smaller caller buffer asks less: the state `coap_read_session` (1472 bytes) leaves is fine for `coap_ws_close`
+(100 bytes) -/
+theorem RdOk_mono {d1 d2 : Nat} {st : St} (h : RdOk d1 st) (hd : d2 ≤ d1) : RdOk d2 st :=
+  ⟨h.1, fun ha hs => h.2 ha (Nat.le_trans hs hd)⟩
+
+/-- "Get in (remaining) data": the bytes read go to `[data_ofs, data_ofs + got)` of a `data_size ≤ datalen` byte
+destination, the state stays `RdOk`, no `oob` -/
+theorem readData_ok (mode : Mode) (st : St) (av data : Bytes) (datalen : Nat) (hl : st.rdHeader.length ≤ fsCap)
+    (ho : st.dataSize ≤ datalen → st.dataOfs ≤ st.dataSize) :
+    RdOk datalen (readData mode st av data datalen).2.1 ∧ (readData mode st av data datalen).1 ≠ .oob ∧
+    (st.dataSize ≤ datalen → st.dataOfs + (av.take (st.dataSize - st.dataOfs)).length ≤ datalen) := by
+  refine ⟨?_, ?_, ?_⟩
+  · unfold readData
+    by_cases h : st.dataSize > datalen
+    · rw [if_pos h]; exact ⟨hl, fun _ hs => by dsimp only at hs ⊢; omega⟩
+    · rw [if_neg h]
+      simp only
+      split
+      · exact ⟨by simp [fsCap], fun ha => by cases ha⟩
+      · refine ⟨hl, fun _ _ => ?_⟩
+        have := ho (by omega)
+        simp only [List.length_take]
+        omega
+  · unfold readData
+    by_cases h : st.dataSize > datalen
+    · rw [if_pos h]; intro hh; cases hh
+    · rw [if_neg h]
+      simp only
+      split <;> (intro hh; cases hh)
+  · intro hs
+    have := ho hs
+    simp only [List.length_take]
+    omega
+
+theorem RdOk_noall {datalen : Nat} {st : St} (hl : st.rdHeader.length ≤ fsCap) (ha : st.allHdrIn = false) : RdOk datalen st :=
+  ⟨hl, fun h => by rw [ha] at h; cases h⟩
+
+/-- `coap_ws_read`'s frame phase keeps `RdOk` and never indexes outside `rd_header` (`oob`), for every caller buffer size -/
+theorem readFrame_ok (mode : Mode) (datalen : Nat) : ∀ (fuel : Nat) (st : St) (av : Bytes), RdOk datalen st →
+    RdOk datalen (readFrame mode datalen fuel st av).2.1 ∧ (readFrame mode datalen fuel st av).1 ≠ .oob := by
+  intro fuel
+  induction fuel with
+  | zero => intro st av h; exact ⟨h, by intro hh; cases hh⟩
+  | succ f ih =>
+    intro st av hok
+    apply readFrame_cases mode datalen f st av (fun r => RdOk datalen r.2.1 ∧ r.1 ≠ .oob)
+    · intro ha
+      have := readData_ok mode st av [] datalen hok.1 (hok.2 ha)
+      exact ⟨this.1, this.2.1⟩
+    · intro ha hlen
+      refine ⟨RdOk_noall ?_ ha, by intro hh; cases hh⟩
+      simp only [List.length_append] at hlen ⊢
+      simp only [fsCap] at *
+      omega
+    · intro b0 b1 r' ha hh
+      have hlen : r'.length + 2 ≤ fsCap := by
+        have : (st.rdHeader ++ av.take (fsCap - st.rdHeader.length)).length ≤ fsCap := by
+          have := hok.1
+          simp only [List.length_append, List.length_take]; omega
+        rw [hh] at this
+        simpa using this
+      have hl2 : ({ st with rdHeader := b0 :: b1 :: r' } : St).rdHeader.length ≤ fsCap := by simpa using hlen
+      have hdl : (r'.drop (hExtra b1.toNat)).length ≤ fsCap := by simp only [List.length_drop]; omega
+      apply afterHdrD_cases mode datalen f _ b0 b1 r' _ (fun r => RdOk datalen r.2.1 ∧ r.1 ≠ .oob)
+      · intro _ _; exact ⟨RdOk_noall hl2 ha, by intro hh; cases hh⟩
+      · intro _; exact ⟨RdOk_noall hl2 ha, by intro hh; cases hh⟩
+      · intro _ _; exact ⟨RdOk_noall hl2 ha, by intro hh; cases hh⟩
+      · intro _ _ hbig; exact ⟨⟨hl2, fun _ hs => by simp only [hdrSt] at hs; omega⟩, by intro hh; cases hh⟩
+      · intro _ _ _; exact ih _ _ (RdOk_noall hdl rfl)
+      · intro _ _ _; exact ⟨RdOk_noall hdl rfl, by intro hh; cases hh⟩
+      · intro _ _ _ _; exact ⟨RdOk_noall (by simp [fsCap]) rfl, by intro hh; cases hh⟩
+      · intro _ _ _ hlt
+        have := readData_ok mode { hdrSt { st with rdHeader := b0 :: b1 :: r' } b1 r' with dataOfs := (r'.drop (hExtra b1.toNat)).length }
+          (av.drop (fsCap - st.rdHeader.length)) (r'.drop (hExtra b1.toNat)) datalen hl2 (fun _ => by simp only [hdrSt]; omega)
+        exact ⟨this.1, this.2.1⟩
+      · intro _ _ _ _ _
+        refine ⟨RdOk_noall ?_ rfl, by intro hh; cases hh⟩
+        simp only [List.length_drop]; omega
+      · intro _ _ _ _
+        have := readData_ok mode { hdrSt { st with rdHeader := b0 :: b1 :: r' } b1 r' with dataOfs := 0 }
+          (av.drop (fsCap - st.rdHeader.length)) [] datalen hl2 (fun _ => Nat.zero_le _)
+        exact ⟨this.1, this.2.1⟩
 
 /-! ### the drain loop of coap_ws_close -/
 
@@ -107,5 +380,630 @@ theorem closeDrain_recv (mode : Mode) : ∀ (count : Nat) (st : St) (av : Bytes)
         · cases hr
       · simp only [hr]
         exact ih st' av'
+
+/-! ### every `coap_ws_read` call of the drain -/
+
+/-- the (reader state, bytes pending) pairs at which the drain loop calls `coap_ws_read(session, buf, 100)` -/
+def drainCalls (mode : Mode) : (count : Nat) → St → Bytes → List (St × Bytes)
+  | 0, _, _ => []
+  | c + 1, st, av =>
+    if av.length = 0 then drainCalls mode c st av
+    else
+      let r := readFrame mode drainBuf (av.length + fsCap + 2) st av
+      (st, av) :: (if recvCloseOf mode r.1 r.2.1 then [] else drainCalls mode c r.2.1 r.2.2)
+
+/-- `drainCalls` lists exactly the calls `closeDrain` makes -/
+theorem drainCalls_length (mode : Mode) : ∀ (count : Nat) (st : St) (av : Bytes),
+    (drainCalls mode count st av).length = (closeDrain mode count st av).2.2.2 := by
+  intro count
+  induction count with
+  | zero => intro st av; rfl
+  | succ c ih =>
+    intro st av
+    rw [closeDrain, drainCalls]
+    by_cases h0 : av.length = 0
+    · simp only [if_pos h0]; exact ih st av
+    · simp only [if_neg h0]
+      generalize readFrame mode drainBuf (av.length + fsCap + 2) st av = r
+      obtain ⟨ret, st', av'⟩ := r
+      simp only
+      by_cases hr : recvCloseOf mode ret st' = true
+      · simp [hr]
+      · simp [hr, ih st' av']
+
+/-- every call of the drain starts from an `RdOk` state (if the drain did) with no more bytes pending than at the start -/
+theorem drainCalls_ok (mode : Mode) : ∀ (count : Nat) (st : St) (av : Bytes), RdOk drainBuf st →
+    ∀ c ∈ drainCalls mode count st av, RdOk drainBuf c.1 ∧ c.2.length ≤ av.length := by
+  intro count
+  induction count with
+  | zero => intro st av _ c hc; simp [drainCalls] at hc
+  | succ n ih =>
+    intro st av hok c hc
+    rw [drainCalls] at hc
+    by_cases h0 : av.length = 0
+    · simp only [if_pos h0] at hc; exact ih st av hok c hc
+    · simp only [if_neg h0] at hc
+      have hfit := readFrame_fits mode drainBuf (av.length + fsCap + 2) st av
+      have hok' := (readFrame_ok mode drainBuf (av.length + fsCap + 2) st av hok).1
+      generalize readFrame mode drainBuf (av.length + fsCap + 2) st av = r at hc hfit hok'
+      obtain ⟨ret, st', av'⟩ := r
+      simp only [List.mem_cons] at hc
+      rcases hc with rfl | hc
+      · exact ⟨hok, Nat.le_refl _⟩
+      · by_cases hr : recvCloseOf mode ret st' = true
+        · simp [hr] at hc
+        · simp only [hr] at hc
+          have := ih st' av' hok' c hc
+          exact ⟨this.1, Nat.le_trans this.2 hfit.1⟩
+
+/-- the drain as a whole: the final state is `RdOk`, bytes are only consumed -/
+theorem closeDrain_ok (mode : Mode) : ∀ (count : Nat) (st : St) (av : Bytes),
+    (closeDrain mode count st av).2.2.1.length ≤ av.length ∧
+    (RdOk drainBuf st → RdOk drainBuf (closeDrain mode count st av).2.1) := by
+  intro count
+  induction count with
+  | zero => intro st av; exact ⟨Nat.le_refl _, id⟩
+  | succ c ih =>
+    intro st av
+    rw [closeDrain]
+    by_cases h0 : av.length = 0
+    · simp only [if_pos h0]; exact ih st av
+    · simp only [if_neg h0]
+      have hfit := readFrame_fits mode drainBuf (av.length + fsCap + 2) st av
+      have hok' := fun h => (readFrame_ok mode drainBuf (av.length + fsCap + 2) st av h).1
+      generalize readFrame mode drainBuf (av.length + fsCap + 2) st av = r at hfit hok'
+      obtain ⟨ret, st', av'⟩ := r
+      simp only
+      by_cases hr : recvCloseOf mode ret st' = true
+      · simp only [hr, if_true]; exact ⟨hfit.1, hok'⟩
+      · simp only [hr]
+        have := ih st' av'
+        exact ⟨Nat.le_trans this.1 hfit.1, fun h => this.2 (hok' h)⟩
+
+/-! ### what the drain does when it cannot see the peer's Close frame -/
+
+/-- once a call has emptied the socket the loop only waits: no further `coap_ws_read`, whatever was left in
+`rd_header` (select() reports on the socket, not on `rd_header`) -/
+theorem closeDrain_socket_empty (mode : Mode) (c : Nat) (st st' : St) (av : Bytes) (ret : Ret) (hav : av ≠ [])
+    (h : readFrame mode drainBuf (av.length + fsCap + 2) st av = (ret, st', [])) :
+    closeDrain mode (c + 1) st av = (recvCloseOf mode ret st', st', [], 1) := by
+  rw [closeDrain]
+  have h0 : ¬ av.length = 0 := by intro h; exact hav (List.eq_nil_of_length_eq_zero h)
+  simp only [if_neg h0, h]
+  by_cases hr : recvCloseOf mode ret st' = true
+  · simp [hr]
+  · simp [hr, closeDrain_idle]
+
+theorem recvCloseOf_pkt (mode : Mode) (pl : Bytes) (st : St) : recvCloseOf mode (.pkt pl) st = false := by
+  unfold recvCloseOf; split <;> simp_all
+
+/-- a frame that arrived in the same header read as the peer's Close frame: the call returns that frame's payload,
+the socket is empty, the Close frame (and whatever else) stays in `rd_header` unseen: `recv_close` stays 0 -/
+theorem closeDrain_close_unseen (mode : Mode) (c : Nat) (st st' : St) (av pl : Bytes) (hav : av ≠ [])
+    (h : readFrame mode drainBuf (av.length + fsCap + 2) st av = (.pkt pl, st', [])) :
+    closeDrain mode (c + 1) st av = (false, st', [], 1) := by
+  rw [closeDrain_socket_empty mode c st st' av _ hav h, recvCloseOf_pkt]
+
+/-- after a 1009 refusal (`all_hdr_in` set, `data_size` above the 100-byte buffer) every call fails with -1 before it
+reads anything: the loop spends its `count` rounds, state and pending bytes untouched, `recv_close` stays 0 -/
+theorem closeDrain_oversize (mode : Mode) : ∀ (count : Nat) (st : St) (av : Bytes), st.allHdrIn = true →
+    st.dataSize > drainBuf →
+    closeDrain mode count st av = (false, st, av, if av.length = 0 then 0 else count) := by
+  intro count
+  induction count with
+  | zero => intro st av _ _; simp [closeDrain]
+  | succ c ih =>
+    intro st av ha hs
+    rw [closeDrain]
+    by_cases h0 : av.length = 0
+    · simp only [if_pos h0]; rw [ih st av ha hs]; simp [h0]
+    · simp only [if_neg h0]
+      have e : readFrame mode drainBuf (av.length + fsCap + 2) st av = (.err, st, av) := by
+        rw [readFrame_dataD _ _ _ _ _ ha]; unfold readData; rw [if_pos hs]
+      rw [e]
+      have hr : recvCloseOf mode .err st = false := by unfold recvCloseOf; split <;> simp_all
+      simp only [hr, ih st av ha hs, if_neg h0]
+      simp
+
+/-- a header the reader has refused with 1002 (unmasked frame to a server) or 1003 (complete header, opcode neither
+binary nor close) and left in `rd_header` -/
+def Refused (mode : Mode) (st : St) : Prop :=
+  st.allHdrIn = false ∧ ∃ b0 b1 r, st.rdHeader = b0 :: b1 :: r ∧
+    ((mode = .server ∧ ¬ b1.toNat / 128 = 1) ∨
+     (hExtra b1.toNat ≤ r.length ∧ b0.toNat % 16 ≠ 2 ∧ b0.toNat % 16 ≠ 8))
+
+/-- a call on a refused header refuses it again: it only tops `rd_header` up -/
+theorem readFrame_refused (mode : Mode) (datalen fuel : Nat) (st : St) (av : Bytes) (h : Refused mode st) :
+    readFrame mode datalen (fuel + 1) st av =
+      (.closed, { st with rdHeader := st.rdHeader ++ av.take (fsCap - st.rdHeader.length) }, av.drop (fsCap - st.rdHeader.length)) ∧
+    Refused mode { st with rdHeader := st.rdHeader ++ av.take (fsCap - st.rdHeader.length) } := by
+  obtain ⟨ha, b0, b1, r, hr, hc⟩ := h
+  have hh : st.rdHeader ++ av.take (fsCap - st.rdHeader.length) = b0 :: b1 :: (r ++ av.take (fsCap - st.rdHeader.length)) := by
+    rw [hr]; rfl
+  refine ⟨?_, ha, b0, b1, _, hh, ?_⟩
+  · rw [readFrame_hdrD _ _ _ _ _ b0 b1 _ ha hh, ← hh]
+    unfold afterHdrD
+    rcases hc with ⟨hm, hb⟩ | ⟨hl, h2, _⟩
+    · rw [if_pos ⟨hm, hb⟩]
+    · by_cases c1 : mode = .server ∧ ¬ b1.toNat / 128 = 1
+      · rw [if_pos c1]
+      · rw [if_neg c1, if_neg (by simp only [List.length_append]; omega), if_pos h2]
+  · rcases hc with hc | ⟨hl, h2, h8⟩
+    · exact Or.inl hc
+    · exact Or.inr ⟨by simp only [List.length_append]; omega, h2, h8⟩
+
+theorem recvCloseOf_refused (mode : Mode) (ret : Ret) (st : St) (h : Refused mode st) : recvCloseOf mode ret st = false := by
+  obtain ⟨ha, b0, b1, r, hr, hc⟩ := h
+  unfold recvCloseOf
+  rw [hr]
+  cases ret <;> simp only [] 
+  rcases hc with ⟨hm, hb⟩ | ⟨_, h2, h8⟩
+  · simp [hm, hb]
+  · simp [h8]
+
+/-- after a 1002/1003 refusal the drain cannot progress: every call refuses the same header again, at most the free
+room of `rd_header` is taken from the socket, `recv_close` stays 0 -/
+theorem closeDrain_refused (mode : Mode) : ∀ (count : Nat) (st : St) (av : Bytes), Refused mode st →
+    (closeDrain mode count st av).1 = false ∧ Refused mode (closeDrain mode count st av).2.1 ∧
+    av.length ≤ (closeDrain mode count st av).2.2.1.length + (fsCap - st.rdHeader.length) := by
+  intro count
+  induction count with
+  | zero => intro st av h; exact ⟨rfl, h, by simp [closeDrain]⟩
+  | succ c ih =>
+    intro st av h
+    rw [closeDrain]
+    by_cases h0 : av.length = 0
+    · simp only [if_pos h0]; exact ih st av h
+    · simp only [if_neg h0]
+      obtain ⟨e, h'⟩ := readFrame_refused mode drainBuf (av.length + fsCap + 1) st av h
+      rw [show av.length + fsCap + 2 = av.length + fsCap + 1 + 1 from rfl, e]
+      simp only [recvCloseOf_refused mode _ _ h']
+      have := ih _ (av.drop (fsCap - st.rdHeader.length)) h'
+      refine ⟨this.1, this.2.1, ?_⟩
+      have h3 := this.2.2
+      simp only [List.length_append, List.length_take, List.length_drop] at h3
+      simp only [Bool.false_eq_true, if_false]
+      omega
+
+/-! ### termination of `goto next_frame` -/
+
+/-- `afterHdrD` depends on the fuel only through the `goto next_frame` of a frame without data -/
+theorem afterHdrD_congr (mode : Mode) (datalen f g : Nat) (st : St) (b0 b1 : UInt8) (r' av : Bytes)
+    (h : hExtra b1.toNat < r'.length →
+      readFrame mode datalen f { hdrSt st b1 r' with rdHeader := r'.drop (hExtra b1.toNat), allHdrIn := false } av =
+      readFrame mode datalen g { hdrSt st b1 r' with rdHeader := r'.drop (hExtra b1.toNat), allHdrIn := false } av) :
+    afterHdrD mode datalen f st b0 b1 r' av = afterHdrD mode datalen g st b0 b1 r' av := by
+  unfold afterHdrD
+  by_cases c1 : mode = .server ∧ ¬ b1.toNat / 128 = 1
+  · rw [if_pos c1, if_pos c1]
+  rw [if_neg c1, if_neg c1]
+  by_cases c2 : r'.length < hExtra b1.toNat
+  · rw [if_pos c2, if_pos c2]
+  rw [if_neg c2, if_neg c2]
+  by_cases c3 : b0.toNat % 16 ≠ 2
+  · rw [if_pos c3, if_pos c3]
+  rw [if_neg c3, if_neg c3]
+  by_cases c4 : hSize b1.toNat r' > datalen
+  · rw [if_pos c4, if_pos c4]
+  rw [if_neg c4, if_neg c4]
+  by_cases c5 : hSize b1.toNat r' = 0
+  · rw [if_pos c5, if_pos c5]
+    by_cases c6 : (r'.drop (hExtra b1.toNat)).length > 0
+    · rw [if_pos c6, if_pos c6]
+      exact h (by simp only [List.length_drop] at c6; omega)
+    · rw [if_neg c6, if_neg c6]
+  · rw [if_neg c5, if_neg c5]
+
+/-- the `goto next_frame` loop of one `coap_ws_read` call terminates: every round takes at least the two fixed header
+bytes out of `rd_header` ++ the bytes at hand, so any fuel above their number gives the same result — the model's fuel
+(`av.length + 16`) never runs out for a state with `hdr_ofs ≤ 14` -/
+theorem readFrame_fuel (mode : Mode) (datalen : Nat) : ∀ (f g : Nat) (st : St) (av : Bytes),
+    st.rdHeader.length + av.length < f → st.rdHeader.length + av.length < g →
+    readFrame mode datalen f st av = readFrame mode datalen g st av := by
+  intro f
+  induction f with
+  | zero => intro g st av h; omega
+  | succ f ih =>
+    intro g st av hf hg
+    obtain ⟨g, rfl⟩ : ∃ g', g = g' + 1 := ⟨g - 1, by omega⟩
+    cases ha : st.allHdrIn with
+    | true => rw [readFrame_dataD _ _ _ _ _ ha, readFrame_dataD _ _ _ _ _ ha]
+    | false =>
+      match hh : st.rdHeader ++ av.take (fsCap - st.rdHeader.length) with
+      | [] => rw [readFrame_shortD _ _ _ _ _ ha (by rw [hh]; simp), readFrame_shortD _ _ _ _ _ ha (by rw [hh]; simp)]
+      | [b] => rw [readFrame_shortD _ _ _ _ _ ha (by rw [hh]; simp), readFrame_shortD _ _ _ _ _ ha (by rw [hh]; simp)]
+      | b0 :: b1 :: r' =>
+        rw [readFrame_hdrD _ _ _ _ _ b0 b1 r' ha hh, readFrame_hdrD _ _ _ _ _ b0 b1 r' ha hh]
+        apply afterHdrD_congr
+        intro hx
+        have hl : (st.rdHeader ++ av.take (fsCap - st.rdHeader.length)).length = r'.length + 2 := by rw [hh]; rfl
+        simp only [List.length_append, List.length_take] at hl
+        apply ih
+        · simp only [List.length_drop]; omega
+        · simp only [List.length_drop]; omega
+
+/-! ### the states the event loop leaves behind are `RdOk` -/
+
+theorem readData_up (mode : Mode) (st : St) (av data : Bytes) (datalen : Nat) :
+    (readData mode st av data datalen).2.1.up = st.up := by
+  unfold readData
+  by_cases h : st.dataSize > datalen
+  · rw [if_pos h]
+  · rw [if_neg h]; simp only; split <;> rfl
+
+theorem readFrame_up (mode : Mode) (datalen : Nat) : ∀ (fuel : Nat) (st : St) (av : Bytes),
+    (readFrame mode datalen fuel st av).2.1.up = st.up := by
+  intro fuel
+  induction fuel with
+  | zero => intro st av; rfl
+  | succ f ih =>
+    intro st av
+    apply readFrame_cases mode datalen f st av (fun r => r.2.1.up = st.up)
+    · intro _; exact readData_up ..
+    · intro _ _; rfl
+    · intro b0 b1 r' _ _
+      apply afterHdrD_cases mode datalen f _ b0 b1 r' _ (fun r => r.2.1.up = st.up)
+      · intro _ _; rfl
+      · intro _; rfl
+      · intro _ _; rfl
+      · intro _ _ _; rfl
+      · intro _ _ _; rw [ih]; rfl
+      · intro _ _ _; rfl
+      · intro _ _ _ _; rfl
+      · intro _ _ _ _; rw [readData_up]; rfl
+      · intro _ _ _ _ _; rfl
+      · intro _ _ _ _; rw [readData_up]; rfl
+
+/-- a frame-phase reader state the event loop can leave behind -/
+def UpOk (st : St) : Prop := st.up = true ∧ RdOk rxBuf st
+
+theorem wsRead_upok (mode : Mode) (accept : Bytes) (st : St) (av : Bytes) (h : UpOk st) :
+    UpOk (wsRead mode accept rxBuf st av).2.1 := by
+  unfold wsRead
+  simp only [h.1, Bool.not_true, Bool.false_eq_true, if_false]
+  exact ⟨by rw [readFrame_up]; exact h.1, (readFrame_ok mode rxBuf _ st av h.2).1⟩
+
+theorem readSession_pres (mode : Mode) (accept : Bytes) (Q : St → Prop)
+    (hQ : ∀ st av, Q st → Q (wsRead mode accept rxBuf st av).2.1) : ∀ (fuel : Nat) (st : St) (av : Bytes), Q st →
+    ∀ st', (readSession mode accept fuel st av).2.1 = .open st' → Q st' := by
+  intro fuel
+  induction fuel with
+  | zero => intro st av h st' e; simp only [readSession, Sess.open.injEq] at e; exact e ▸ h
+  | succ f ih =>
+    intro st av h st' e
+    have hw := hQ st av h
+    rw [readSession] at e
+    generalize wsRead mode accept rxBuf st av = r at hw e
+    obtain ⟨ret, st1, av1⟩ := r
+    cases ret with
+    | err => simp at e
+    | closed => simp at e
+    | oob => simp at e
+    | zero => simp only [Sess.open.injEq] at e; exact e ▸ hw
+    | pkt pl =>
+      simp only at e
+      split at e
+      · exact ih st1 av1 hw st' e
+      · simp only [Sess.open.injEq] at e; exact e ▸ hw
+
+theorem feedChunk_pres (mode : Mode) (accept : Bytes) (Q : St → Prop)
+    (hQ : ∀ st av, Q st → Q (wsRead mode accept rxBuf st av).2.1) : ∀ (fuel idle : Nat) (st : St) (av : Bytes), Q st →
+    ∀ st', (feedChunk mode accept fuel idle st av).2.1 = .open st' → Q st' := by
+  intro fuel
+  induction fuel with
+  | zero => intro idle st av h st' e; simp only [feedChunk, Sess.open.injEq] at e; exact e ▸ h
+  | succ f ih =>
+    intro idle st av h st' e
+    rw [feedChunk] at e
+    by_cases h0 : av.length = 0
+    · simp only [if_pos h0, Sess.open.injEq] at e; exact e ▸ h
+    · simp only [if_neg h0] at e
+      have hs := readSession_pres mode accept Q hQ (av.length + fsCap + 2) st av h
+      generalize readSession mode accept (av.length + fsCap + 2) st av = r at hs e
+      obtain ⟨ms, sess, av1⟩ := r
+      cases sess with
+      | closed => simp at e
+      | oob => simp at e
+      | «open» st1 =>
+        have h1 := hs st1 rfl
+        simp only at e
+        split at e
+        · split at e
+          · simp only [Sess.open.injEq] at e; exact e ▸ h1
+          · exact ih _ st1 av1 h1 st' e
+        · exact ih _ st1 av1 h1 st' e
+
+/-- every reader state the event loop leaves behind in the frame phase is `RdOk` (for `coap_read_session`'s 1472-byte
+buffer, hence for `coap_ws_close`'s 100 bytes) -/
+theorem feed_pres (mode : Mode) (accept : Bytes) (Q : St → Prop)
+    (hQ : ∀ st av, Q st → Q (wsRead mode accept rxBuf st av).2.1) : ∀ (chunks : List Bytes) (st : St), Q st →
+    ∀ st', (feed mode accept st chunks).2.1 = .open st' → Q st' := by
+  intro chunks
+  induction chunks with
+  | nil => intro st h st' e; simp only [feed, Sess.open.injEq] at e; exact e ▸ h
+  | cons c cs ih =>
+    intro st h st' e
+    rw [feed] at e
+    have hc := feedChunk_pres mode accept Q hQ (6 * (c.length + 1)) 0 st c h
+    generalize feedChunk mode accept (6 * (c.length + 1)) 0 st c = r at hc e
+    obtain ⟨ms, sess, stuck⟩ := r
+    cases sess with
+    | closed => simp at e
+    | oob => simp at e
+    | «open» st1 =>
+      cases stuck with
+      | true => simp only [Sess.open.injEq] at e; exact e ▸ hc st1 rfl
+      | false => exact ih st1 (hc st1 rfl) st' e
+
+theorem feed_upok (mode : Mode) (accept : Bytes) (chunks : List Bytes) (st : St) (h : UpOk st) :
+    ∀ st', (feed mode accept st chunks).2.1 = .open st' → UpOk st' :=
+  feed_pres mode accept UpOk (wsRead_upok mode accept) chunks st h
+
+/-! the same through the HTTP upgrade -/
+
+/-- a reader state of a whole connection: `RdOk`, and `all_hdr_in` is clear while the handshake is running -/
+def ConnOk (st : St) : Prop := RdOk rxBuf st ∧ (st.up = false → st.allHdrIn = false)
+
+theorem connOk_init : ConnOk {} := ⟨⟨by decide, fun h => by cases h⟩, fun _ => rfl⟩
+
+def LinesOk : Lines → Prop
+  | .cont st' => ConnOk st' ∧ st'.up = false
+  | .up st' => ConnOk st' ∧ st'.up = true
+  | _ => True
+
+def HdrResOk : R (St × Bytes) → Prop
+  | R.ok (st', _) => ConnOk st'
+  | _ => True
+
+theorem lineLoop_connOk (mode : Mode) (accept : Bytes) : ∀ (fuel : Nat) (st : St), ConnOk st → st.up = false →
+    LinesOk (lineLoop mode accept fuel st) := by
+  intro fuel
+  induction fuel with
+  | zero => intro st h hu; simp only [lineLoop]; exact ⟨h, hu⟩
+  | succ f ih =>
+    intro st h hu
+    rw [lineLoop]
+    split
+    · exact ⟨h, hu⟩
+    · simp only
+      split
+      · trivial
+      · rename_i s' endLine _
+        split
+        · split
+          · split
+            · trivial
+            · rename_i hrem
+              exact ⟨⟨RdOk_noall (by simpa using Nat.le_of_not_gt hrem) (h.2 hu), fun hh => by cases hh⟩, rfl⟩
+          · trivial
+        · exact ih _ ⟨⟨h.1.1, h.1.2⟩, h.2⟩ hu
+
+theorem rdHttpHeader_connOk (mode : Mode) (accept : Bytes) : ∀ (fuel : Nat) (st : St) (av : Bytes), ConnOk st →
+    HdrResOk (rdHttpHeader mode accept fuel st av) := by
+  intro fuel
+  induction fuel with
+  | zero => intro st av h; simp only [rdHttpHeader]; exact h
+  | succ f ih =>
+    intro st av h
+    rw [rdHttpHeader]
+    split
+    · exact h
+    · rename_i hu
+      simp only
+      generalize (if httpCap - 1 - st.httpHdr.length > fsCap then fsCap else httpCap - 1 - st.httpHdr.length) = rem
+      split
+      · trivial
+      · split
+        · exact h
+        · split
+          · trivial
+          · have hu' : st.up = false := by simpa using hu
+            have hl := lineLoop_connOk mode accept ((st.httpHdr ++ av.take rem).length + 1)
+              { st with httpHdr := st.httpHdr ++ av.take rem } ⟨⟨h.1.1, h.1.2⟩, h.2⟩ hu'
+            split <;> rename_i heq <;> rw [heq] at hl
+            · trivial
+            · trivial
+            · exact hl.1
+            · exact ih _ _ hl.1
+
+theorem wsRead_connOk (mode : Mode) (accept : Bytes) (st : St) (av : Bytes) (h : ConnOk st) :
+    ConnOk (wsRead mode accept rxBuf st av).2.1 := by
+  have hfr : ∀ (fuel : Nat) (s : St) (a : Bytes), ConnOk s → s.up = true → ConnOk (readFrame mode rxBuf fuel s a).2.1 := by
+    intro fuel s a hs hu
+    refine ⟨(readFrame_ok mode rxBuf fuel s a hs.1).1, fun hh => ?_⟩
+    rw [readFrame_up, hu] at hh; cases hh
+  unfold wsRead
+  by_cases hu : st.up = true
+  · simp only [hu, Bool.not_true, Bool.false_eq_true, if_false]
+    exact hfr _ st av h hu
+  · simp only [hu, Bool.not_false, if_true]
+    have hr := rdHttpHeader_connOk mode accept (av.length + 2) st av h
+    generalize rdHttpHeader mode accept (av.length + 2) st av = r at hr
+    cases r with
+    | rej => exact h
+    | oob => exact h
+    | ok p =>
+      obtain ⟨st1, av1⟩ := p
+      simp only [HdrResOk] at hr
+      simp only
+      split
+      · exact hr
+      · rename_i h1
+        split
+        · exact hr
+        · exact hfr _ st1 av1 hr (by simpa using h1)
+
+/-- every reader state the event loop leaves behind on a whole connection (fresh state, ANY byte stream, any chunks) -/
+theorem feed_connOk (mode : Mode) (accept : Bytes) (chunks : List Bytes) :
+    ∀ st', (feed mode accept {} chunks).2.1 = .open st' → ConnOk st' :=
+  feed_pres mode accept ConnOk (wsRead_connOk mode accept) chunks {} connOk_init
+
+/-! ### the reader closing the session by itself -/
+
+/-- how a `coap_ws_read` call can close the session by itself: a Close frame header completed (`recv_close` set, no
+drain), a header refused with 1002/1003 and left in `rd_header` (`Refused`), or a frame refused with 1009
+(`all_hdr_in` set, `data_size` above the caller's buffer) -/
+def ClosedHow (mode : Mode) (datalen : Nat) (st' : St) : Prop :=
+  recvCloseOf mode .closed st' = true ∨ Refused mode st' ∨ (st'.allHdrIn = true ∧ st'.dataSize > datalen)
+
+theorem readData_not_closed (mode : Mode) (st : St) (av data : Bytes) (datalen : Nat) :
+    (readData mode st av data datalen).1 ≠ .closed := by
+  unfold readData
+  by_cases h : st.dataSize > datalen
+  · rw [if_pos h]; intro hh; cases hh
+  · rw [if_neg h]; simp only; split <;> (intro hh; cases hh)
+
+theorem readFrame_closed_cases (mode : Mode) (datalen : Nat) : ∀ (fuel : Nat) (st : St) (av : Bytes),
+    (readFrame mode datalen fuel st av).1 = .closed → ClosedHow mode datalen (readFrame mode datalen fuel st av).2.1 := by
+  intro fuel
+  induction fuel with
+  | zero => intro st av h; cases h
+  | succ f ih =>
+    intro st av
+    apply readFrame_cases mode datalen f st av (fun r => r.1 = .closed → ClosedHow mode datalen r.2.1)
+    · intro _ h; exact absurd h (readData_not_closed _ _ _ _ _)
+    · intro _ _ h; cases h
+    · intro b0 b1 r' ha hh
+      apply afterHdrD_cases mode datalen f _ b0 b1 r' _ (fun r => r.1 = .closed → ClosedHow mode datalen r.2.1)
+      · intro hm hb _; exact Or.inr (Or.inl ⟨ha, b0, b1, r', rfl, Or.inl ⟨hm, hb⟩⟩)
+      · intro _ h; cases h
+      · intro hl h2 _
+        by_cases hm : mode = .server ∧ ¬ b1.toNat / 128 = 1
+        · exact Or.inr (Or.inl ⟨ha, b0, b1, r', rfl, Or.inl hm⟩)
+        · by_cases h8 : b0.toNat % 16 = 8
+          · refine Or.inl ?_
+            simp only [recvCloseOf, ha, h8]
+            have : ¬ (mode = .server ∧ ¬ b1.toNat / 128 = 1) := hm
+            by_cases hs : mode = .server
+            · have : b1.toNat / 128 = 1 := by
+                rcases Classical.em (b1.toNat / 128 = 1) with h | h
+                · exact h
+                · exact absurd ⟨hs, h⟩ hm
+              simp [this]
+            · simp [hs]
+          · exact Or.inr (Or.inl ⟨ha, b0, b1, r', rfl, Or.inr ⟨hl, h2, h8⟩⟩)
+      · intro _ _ hbig _; exact Or.inr (Or.inr ⟨rfl, hbig⟩)
+      · intro _ _ _; exact ih _ _
+      · intro _ _ _ h; cases h
+      · intro _ _ _ _ h; cases h
+      · intro _ _ _ _ h; exact absurd h (readData_not_closed _ _ _ _ _)
+      · intro _ _ _ _ _ h; cases h
+      · intro _ _ _ _ h; exact absurd h (readData_not_closed _ _ _ _ _)
+
+theorem wsRead_closed (mode : Mode) (accept : Bytes) (datalen : Nat) (st : St) (av : Bytes)
+    (h : (wsRead mode accept datalen st av).1 = .closed) : ClosedHow mode datalen (wsRead mode accept datalen st av).2.1 := by
+  unfold wsRead at h ⊢
+  by_cases hu : st.up = true
+  · simp only [hu, Bool.not_true, Bool.false_eq_true, if_false] at h ⊢
+    exact readFrame_closed_cases mode datalen _ st av h
+  · simp only [hu, Bool.not_false, if_true] at h ⊢
+    generalize rdHttpHeader mode accept (av.length + 2) st av = r at h ⊢
+    cases r with
+    | rej => cases h
+    | oob => cases h
+    | ok p =>
+      obtain ⟨st1, av1⟩ := p
+      simp only at h ⊢
+      split at h
+      · cases h
+      · rename_i h1
+        split at h
+        · cases h
+        · rename_i h2
+          simp only [h1, h2, if_false] at ⊢
+          exact readFrame_closed_cases mode datalen _ st1 av1 h
+
+/-- the state `coap_ws_close` is entered with when the reader closes the session by itself -/
+theorem refusalPoint_closed (mode : Mode) (accept : Bytes) : ∀ (fuel idle : Nat) (st : St) (av : Bytes) (st' : St) (av' : Bytes),
+    refusalPoint mode accept fuel idle st av = some (st', av') → ClosedHow mode rxBuf st' := by
+  intro fuel
+  induction fuel with
+  | zero => intro idle st av st' av' h; cases h
+  | succ f ih =>
+    intro idle st av st' av' h
+    rw [refusalPoint] at h
+    have hc := wsRead_closed mode accept rxBuf st av
+    generalize wsRead mode accept rxBuf st av = r at h hc
+    obtain ⟨ret, st1, av1⟩ := r
+    cases ret with
+    | err => cases h
+    | oob => cases h
+    | closed =>
+      simp only [Option.some.injEq, Prod.mk.injEq] at h
+      obtain ⟨rfl, rfl⟩ := h
+      exact hc rfl
+    | zero =>
+      simp only at h
+      split at h
+      · cases h
+      · split at h
+        · split at h
+          · cases h
+          · exact ih _ _ _ _ _ h
+        · exact ih _ _ _ _ _ h
+    | pkt pl =>
+      simp only at h
+      split at h
+      · exact ih _ _ _ _ _ h
+      · cases h
+
+/-- the reader's own `coap_ws_close`, on every input: either a Close frame was received (no drain), or the drain runs
+from a refused header / refused frame and cannot progress — `recv_close` stays 0, after 1009 nothing is read at all
+(five calls returning -1 if bytes are pending), after 1002/1003 at most the free room of `rd_header` is read -/
+theorem selfClose_cases (mode : Mode) (accept : Bytes) (st : St) (chunk : Bytes) (r : Bool × St × Bytes × Nat)
+    (h : selfClose mode accept st chunk = some r) :
+    ∃ st' av', refusalPoint mode accept (6 * (chunk.length + 1)) 0 st chunk = some (st', av') ∧
+      ((recvCloseOf mode .closed st' = true ∧ r = (true, st', av', 0)) ∨
+       (Refused mode st' ∧ r.1 = false ∧ Refused mode r.2.1 ∧
+          av'.length ≤ r.2.2.1.length + (fsCap - st'.rdHeader.length) ∧ r.2.2.2 ≤ drainCount) ∨
+       (st'.allHdrIn = true ∧ st'.dataSize > rxBuf ∧ r = (false, st', av', if av'.length = 0 then 0 else drainCount))) := by
+  unfold selfClose at h
+  cases hp : refusalPoint mode accept (6 * (chunk.length + 1)) 0 st chunk with
+  | none => rw [hp] at h; cases h
+  | some p =>
+    obtain ⟨st', av'⟩ := p
+    rw [hp] at h
+    simp only at h
+    refine ⟨st', av', rfl, ?_⟩
+    by_cases hr : recvCloseOf mode .closed st' = true
+    · simp only [hr, if_true, Option.some.injEq] at h
+      exact Or.inl ⟨hr, h.symm⟩
+    · simp only [hr, Bool.false_eq_true, if_false, Option.some.injEq] at h
+      subst h
+      rcases refusalPoint_closed mode accept _ _ _ _ _ _ hp with hc | hc | hc
+      · exact absurd hc hr
+      · have := closeDrain_refused mode drainCount st' av' hc
+        exact Or.inr (Or.inl ⟨hc, this.1, this.2.1, this.2.2, closeDrain_calls_le mode drainCount st' av'⟩)
+      · refine Or.inr (Or.inr ⟨hc.1, hc.2, ?_⟩)
+        exact closeDrain_oversize mode drainCount st' av' hc.1 (by have := hc.2; simp only [rxBuf, drainBuf] at *; omega)
+
+/-! ### rounds of the drain loop -/
+
+/-- the rounds of the drain loop: at most `count`, at least the number of `coap_ws_read` calls, and exactly `count`
+when the peer's Close frame is not seen -/
+theorem drainRounds_spec (mode : Mode) : ∀ (count : Nat) (st : St) (av : Bytes),
+    drainRounds mode count st av ≤ count ∧
+    (closeDrain mode count st av).2.2.2 ≤ drainRounds mode count st av ∧
+    ((closeDrain mode count st av).1 = false → drainRounds mode count st av = count) ∧
+    ((closeDrain mode count st av).1 = true → 1 ≤ drainRounds mode count st av) := by
+  intro count
+  induction count with
+  | zero => intro st av; simp [drainRounds, closeDrain]
+  | succ c ih =>
+    intro st av
+    rw [closeDrain, drainRounds]
+    by_cases h0 : av.length = 0
+    · simp only [if_pos h0]
+      have := ih st av
+      refine ⟨by omega, by omega, fun h => by have := this.2.2.1 h; omega, fun _ => by omega⟩
+    · simp only [if_neg h0]
+      generalize readFrame mode drainBuf (av.length + fsCap + 2) st av = r
+      obtain ⟨ret, st', av'⟩ := r
+      simp only
+      by_cases hr : recvCloseOf mode ret st' = true
+      · simp [hr]
+      · simp only [hr, Bool.false_eq_true, if_false]
+        have := ih st' av'
+        refine ⟨by omega, by omega, fun h => by have := this.2.2.1 h; omega, fun _ => by omega⟩
 
 end Coap
